@@ -57,6 +57,10 @@ PROPS = {
                 quick=['std-lax'], thorough=['std-lax', 'std-strict', 'nostd-lax']),
     'C10': dict(workload='C10', oracle=['C10'], project=proj_identity,
                 quick=['std-lax'], thorough=['std-lax', 'std-strict', 'nostd-lax']),
+    'C11': dict(workload='C11', oracle=['C11'], project=proj_identity,
+                quick=['std-lax', 'nostd-lax'], thorough=list(CONFIGS)),
+    'C12': dict(workload='C12', oracle=['C12'], project=proj_identity,
+                quick=['std-lax', 'nostd-lax'], thorough=['std-lax', 'nostd-lax']),
     'C14': dict(workload='C14', oracle=['C14'], project=proj_identity,
                 quick=['std-lax', 'std-strict'], thorough=list(CONFIGS)),
     'C17': dict(workload='C17', oracle=['C17'], project=proj_identity,
